@@ -105,12 +105,23 @@ def run(tier, seed):
     n_model = len(cases)
     cases += random_cases(300 if tier == "quick" else 10000, seed)
     by_id = {c["id"]: c for c in cases}
+    for c in cases:
+        c["follow_ticks"] = True      # every completed snapshot is also compared with the byte-level model
     raws = common.run_cases_parallel("seq", cases, wd)
     norm_path = os.path.join(wd, "norm.ndjson")
     common.normalize_all(raws, norm_path)
     out = common.validate_into(res, norm_path, "Trace_Restore.tla", "Trace_Restore.cfg", [], devs,
                                "/dev/null", wd, by_id)
+    import snapfollow
+    n_snaps, shards = snapfollow.normalize(raws, os.path.join(wd, "snapfollow"))
+    checked, bad = snapfollow.validate(shards)
     res.coverage.update({
+        "byte_level_model": {"module": "NunDiskBytes.tla via Trace_Snap: files after every completed snapshot = the modelled "
+                                       "calls executed on the files before; in-memory addresses and states = the model's; "
+                                       "modelled loader on those files = the live entries (model conformance, reported "
+                                       "here; the verdict of C06 is Trace_Restore's)",
+                             "completed_snapshots_checked": checked, "not_conforming": len(bad),
+                             "first_not_conforming": [list(b) for b in bad[:5]]},
         "traces_validated_against_impl": out["runs"], "events_validated": out["events"],
         "model_generated_cases": n_model, "random_cases": len(cases) - n_model,
         "samples": [[s.get("line", s.get("op", {}).get("op")) for s in cases[n_model // 2]["steps"]]],
